@@ -395,18 +395,20 @@ def _fmt_size(e, consts):
             return x.value
         if isinstance(x, ast.JoinedStr):
             out = ""
-            for v in x.values:
+            vals = list(x.values)
+            for i_, v in enumerate(vals):
                 if isinstance(v, ast.Constant):
                     out += v.value
                 else:
-                    inner = ast.unparse(v.value)
-                    if inner == "endian":
-                        out += ""
-                    elif "slen" in inner:
+                    nxt = vals[i_ + 1].value if i_ + 1 < len(vals) and isinstance(vals[i_ + 1], ast.Constant) else ""
+                    if i_ == 0 and isinstance(v.value, ast.Name):
+                        out += ""  # the byte-order prefix (a local holding '<' or '>')
+                    elif nxt.startswith("s"):
+                        # a string of run-time length: the version string is the longest one read
                         ver = consts.get("_TRR_VERSION")
                         out += str(len(ver.value)) if isinstance(ver, ast.Constant) else "0"
                     else:
-                        raise ValueError(inner)
+                        raise ValueError(ast.unparse(v.value))
             return out
         if isinstance(x, ast.Call) and isinstance(x.func, ast.Attribute) and x.func.attr == "format":
             base = x.func.value
